@@ -397,6 +397,301 @@ int streamCount(std::istream& in)
   return 0;
 }
 
+// ---------------------------------------------------------------------------
+// stream "print": the print functions of the C++ and C API, stdout captured
+//   print <start> <stop> <kind 0..5> <sieveKiB> <cpp|c>
+// observation: number of lines, FNV-1a hash of the text, first and last line; the text is
+// compared byte for byte with the rendering of the oracle's primes / constellations.
+// ---------------------------------------------------------------------------
+
+uint64_t fnv1a(const std::string& s)
+{
+  uint64_t h = 1469598103934665603ull;
+  for (unsigned char c : s) { h ^= c; h *= 1099511628211ull; }
+  return h;
+}
+
+std::string expectedPrint(uint64_t start, uint64_t stop, int kind)
+{
+  std::string out;
+  if (start > stop) return out;
+  std::vector<char> isP;
+  oracleRange(start, stop, isP);
+  for (uint64_t n = start; ; n++)
+  {
+    if (isP[n - start])
+    {
+      if (kind == 0)
+        out += std::to_string(n) + "\n";
+      else
+        for (auto& pat : kPatterns[kind])
+        {
+          bool ok = true;
+          for (int d : pat)
+            if (n + d < n || n + d > stop || !isP[n + d - start]) { ok = false; break; }
+          if (ok)
+          {
+            out += "(";
+            for (size_t i = 0; i < pat.size(); i++)
+              out += (i ? ", " : "") + std::to_string(n + pat[i]);
+            out += ")\n";
+          }
+        }
+    }
+    if (n == stop) break;
+  }
+  return out;
+}
+
+int streamPrint(std::istream& in)
+{
+  std::string line;
+  while (std::getline(in, line))
+  {
+    auto t = split(line);
+    if (t.empty() || t[0][0] == '#')
+      continue;
+    if (t[0] != "print" || t.size() < 6) { std::cerr << "bad op: " << line << "\n"; return 2; }
+    uint64_t start = u64(t[1]), stop = u64(t[2]);
+    int kind = atoi(t[3].c_str()), kib = atoi(t[4].c_str());
+    bool capi = t[5] == "c";
+    std::ostringstream cap;
+    std::string res;
+    auto* old = std::cout.rdbuf(cap.rdbuf());
+    try
+    {
+      primesieve::set_sieve_size(kib);
+      if (!capi)
+        switch (kind)
+        {
+          case 0: primesieve::print_primes(start, stop); break;
+          case 1: primesieve::print_twins(start, stop); break;
+          case 2: primesieve::print_triplets(start, stop); break;
+          case 3: primesieve::print_quadruplets(start, stop); break;
+          case 4: primesieve::print_quintuplets(start, stop); break;
+          default: primesieve::print_sextuplets(start, stop); break;
+        }
+      else
+      {
+        errno = 0;
+        switch (kind)
+        {
+          case 0: primesieve_print_primes(start, stop); break;
+          case 1: primesieve_print_twins(start, stop); break;
+          case 2: primesieve_print_triplets(start, stop); break;
+          case 3: primesieve_print_quadruplets(start, stop); break;
+          case 4: primesieve_print_quintuplets(start, stop); break;
+          default: primesieve_print_sextuplets(start, stop); break;
+        }
+        if (errno == EDOM) res = "ERR:errno";
+      }
+    }
+    catch (const std::exception& e)
+    {
+      res = "ERR:" + errClass(e);
+    }
+    std::cout.rdbuf(old);
+    std::cout << "print " << start << " " << stop << " " << kind << " " << kib << " " << t[5] << " => ";
+    if (!res.empty()) { std::cout << res << "\n"; continue; }
+    std::string text = cap.str();
+    size_t lines = std::count(text.begin(), text.end(), '\n');
+    std::string first = "-", last = "-";
+    if (!text.empty())
+    {
+      first = text.substr(0, text.find('\n'));
+      size_t e = text.size() - 1;                      // final '\n'
+      size_t b = text.rfind('\n', e ? e - 1 : 0);
+      last = (b == std::string::npos || e == 0) ? text.substr(0, e) : text.substr(b + 1, e - b - 1);
+    }
+    for (auto& c : first) if (c == ' ') c = '_';
+    for (auto& c : last) if (c == ' ') c = '_';
+    std::cout << "lines=" << lines << " fnv=" << fnv1a(text) << " first=" << first << " last=" << last;
+    if (stop >= start && stop - start <= 120000000ull)
+    {
+      std::string exp = expectedPrint(start, stop, kind);
+      if (exp != text)
+      {
+        // first differing line
+        std::istringstream a(text), b(exp);
+        std::string la, lb; long n = 0;
+        while (true)
+        {
+          bool ga = (bool) std::getline(a, la), gb = (bool) std::getline(b, lb);
+          n++;
+          if (!ga && !gb) break;
+          if (!ga) la = "<end>";
+          if (!gb) lb = "<end>";
+          if (la != lb) break;
+        }
+        for (auto& c : la) if (c == ' ') c = '_';
+        for (auto& c : lb) if (c == ' ') c = '_';
+        std::cout << " ORACLE-MISMATCH line=" << n << " got=" << la << " expected=" << lb;
+      }
+    }
+    std::cout << "\n";
+  }
+  primesieve::set_sieve_size(256);
+  return 0;
+}
+
+// ---------------------------------------------------------------------------
+// stream "store": generate_primes / generate_n_primes for all element types (C++ std::vector
+// and the C API arrays)
+//   gp <start> <stop> <type> <cpp|c> <prefill>
+//   gn <n> <start> <type> <cpp|c> <prefill>
+// observation: `ok n=<count> fnv=<hash of "p1,p2,..."> first= last=` or `throw`.
+// The harness oracle checks: prefilled elements untouched, appended elements = exactly the
+// requested primes (ok) or an exact prefix of them (throw), a throw only when a requested prime
+// does not fit the type / lies beyond 2^64 (gp: when stop exceeds the type's maximum).
+// ---------------------------------------------------------------------------
+
+struct StoreObs { bool threw = false; std::string err; std::vector<uint64_t> app; bool prefillOk = true; bool errnoEdom = false; bool nullRes = false; };
+
+template <typename T>
+StoreObs runStoreCpp(bool nprimes, uint64_t a, uint64_t b, int prefill)
+{
+  StoreObs o;
+  std::vector<T> v;
+  for (int i = 0; i < prefill; i++) v.push_back((T) (100 + i));
+  try
+  {
+    if (nprimes) primesieve::generate_n_primes(a, b, &v);
+    else primesieve::generate_primes(a, b, &v);
+  }
+  catch (const std::exception& e) { o.threw = true; o.err = errClass(e); }
+  for (int i = 0; i < prefill; i++)
+    if ((size_t) i >= v.size() || v[i] != (T) (100 + i)) o.prefillOk = false;
+  for (size_t i = prefill; i < v.size(); i++)
+  {
+    // a truncated / negative element shows up as a value that is not the requested prime
+    o.app.push_back((uint64_t) v[i]);
+    if (v[i] < 0) o.app.back() = UINT64_MAX; // impossible prime
+  }
+  return o;
+}
+
+template <typename T>
+StoreObs runStoreC(bool nprimes, uint64_t a, uint64_t b, int type)
+{
+  StoreObs o;
+  size_t size = 12345;
+  errno = 0;
+  void* p = nprimes ? primesieve_generate_n_primes(a, b, type) : primesieve_generate_primes(a, b, &size, type);
+  int e = errno;
+  o.errnoEdom = e == EDOM;
+  o.nullRes = p == nullptr;
+  if (nprimes) size = p ? (size_t) a : 0;
+  if (e == EDOM || (p == nullptr && nprimes && a != 0)) { o.threw = true; o.err = "cerror"; }
+  if (p)
+  {
+    T* arr = (T*) p;
+    for (size_t i = 0; i < size; i++)
+    {
+      o.app.push_back((uint64_t) arr[i]);
+      if (arr[i] < 0) o.app.back() = UINT64_MAX;
+    }
+    primesieve_free(p);
+  }
+  else if (!nprimes && size != 0) o.prefillOk = false; // NULL must come with *size = 0
+  return o;
+}
+
+struct TypeInfo { const char* name; int tmpl; uint64_t max; int ccode; };
+// tmpl: 0 i8, 1 u8, 2 i16, 3 u16, 4 i32, 5 u32, 6 i64, 7 u64 (this platform is LP64)
+const TypeInfo typeInfos[] = {
+  { "i8", 0, 127, -1 }, { "u8", 1, 255, -1 },
+  { "i16", 2, 32767, INT16_PRIMES }, { "u16", 3, 65535, UINT16_PRIMES },
+  { "i32", 4, 2147483647ull, INT32_PRIMES }, { "u32", 5, 4294967295ull, UINT32_PRIMES },
+  { "i64", 6, 9223372036854775807ull, INT64_PRIMES }, { "u64", 7, 18446744073709551615ull, UINT64_PRIMES },
+  { "short", 2, 32767, SHORT_PRIMES }, { "ushort", 3, 65535, USHORT_PRIMES },
+  { "int", 4, 2147483647ull, INT_PRIMES }, { "uint", 5, 4294967295ull, UINT_PRIMES },
+  { "long", 6, 9223372036854775807ull, LONG_PRIMES }, { "ulong", 7, 18446744073709551615ull, ULONG_PRIMES },
+  { "llong", 6, 9223372036854775807ull, LONGLONG_PRIMES }, { "ullong", 7, 18446744073709551615ull, ULONGLONG_PRIMES } };
+static_assert(sizeof(short) == 2 && sizeof(int) == 4 && sizeof(long) == 8 && sizeof(long long) == 8, "LP64 expected");
+
+int streamStore(std::istream& in)
+{
+  std::string line;
+  while (std::getline(in, line))
+  {
+    auto t = split(line);
+    if (t.empty() || t[0][0] == '#')
+      continue;
+    if ((t[0] != "gp" && t[0] != "gn") || t.size() < 6) { std::cerr << "bad op: " << line << "\n"; return 2; }
+    bool np = t[0] == "gn";
+    uint64_t a = u64(t[1]), b = u64(t[2]);
+    int ti = -1;
+    for (size_t i = 0; i < sizeof(typeInfos) / sizeof(typeInfos[0]); i++) if (t[3] == typeInfos[i].name) ti = (int) i;
+    if (ti < 0) { std::cerr << "bad type: " << line << "\n"; return 2; }
+    bool capi = t[4] == "c";
+    if (capi && typeInfos[ti].ccode < 0) { std::cerr << "no C code for type: " << line << "\n"; return 2; }
+    int prefill = atoi(t[5].c_str());
+    StoreObs o;
+    int cc = typeInfos[ti].ccode;
+    switch (typeInfos[ti].tmpl)
+    {
+      case 0: o = capi ? runStoreC<int8_t>(np, a, b, cc) : runStoreCpp<int8_t>(np, a, b, prefill); break;
+      case 1: o = capi ? runStoreC<uint8_t>(np, a, b, cc) : runStoreCpp<uint8_t>(np, a, b, prefill); break;
+      case 2: o = capi ? runStoreC<int16_t>(np, a, b, cc) : runStoreCpp<int16_t>(np, a, b, prefill); break;
+      case 3: o = capi ? runStoreC<uint16_t>(np, a, b, cc) : runStoreCpp<uint16_t>(np, a, b, prefill); break;
+      case 4: o = capi ? runStoreC<int32_t>(np, a, b, cc) : runStoreCpp<int32_t>(np, a, b, prefill); break;
+      case 5: o = capi ? runStoreC<uint32_t>(np, a, b, cc) : runStoreCpp<uint32_t>(np, a, b, prefill); break;
+      case 6: o = capi ? runStoreC<int64_t>(np, a, b, cc) : runStoreCpp<int64_t>(np, a, b, prefill); break;
+      default: o = capi ? runStoreC<uint64_t>(np, a, b, cc) : runStoreCpp<uint64_t>(np, a, b, prefill); break;
+    }
+    std::cout << line << " => ";
+    // ---- expected primes
+    uint64_t vmax = typeInfos[ti].max;
+    std::vector<uint64_t> exp;
+    bool beyond = false;       // a requested prime does not exist below 2^64
+    if (!np)
+    {
+      if (a <= b && b - a <= 120000000ull)
+      {
+        std::vector<char> isP; oracleRange(a, b, isP);
+        for (uint64_t n = a; ; n++) { if (isP[n - a]) exp.push_back(n); if (n == b) break; }
+      }
+    }
+    else
+    {
+      uint64_t n = b;
+      for (uint64_t k = 0; k < a; k++)
+      {
+        while (!isPrimeOracle(n)) { if (n == UINT64_MAX) { beyond = true; break; } n++; }
+        if (beyond) break;
+        exp.push_back(n);
+        if (n == UINT64_MAX) { beyond = k + 1 < a; break; }
+        n++;
+      }
+    }
+    std::string bad;
+    if (!o.prefillOk) bad = "prefilled-elements-changed-or-size-not-zeroed";
+    bool isPrefix = o.app.size() <= exp.size() && std::equal(o.app.begin(), o.app.end(), exp.begin());
+    if (o.threw)
+    {
+      bool justified = np ? (beyond || (!exp.empty() && exp.back() > vmax)) : (b > vmax);
+      if (!justified) bad = "unjustified-error";
+      else if (!isPrefix) bad = "appended-elements-not-an-exact-prefix";
+      if (capi && (!o.errnoEdom || !o.nullRes)) bad = "c-error-contract(errno=EDOM,NULL)";
+      std::cout << "throw";
+    }
+    else
+    {
+      if (capi && o.errnoEdom) bad = "errno=EDOM-on-success";
+      if (o.app != exp) bad = "appended-elements-differ-from-requested-primes got=" + std::to_string(o.app.size()) + " expected=" + std::to_string(exp.size());
+      if ((np ? (beyond || (!exp.empty() && exp.back() > vmax)) : (a <= b && a <= 18446744073709551557ull && b > vmax)))
+        bad = "no-error-although-a-requested-prime-does-not-fit";
+      std::string text;
+      for (size_t i = 0; i < o.app.size(); i++) text += (i ? "," : "") + std::to_string(o.app[i]);
+      std::cout << "ok n=" << o.app.size() << " fnv=" << fnv1a(text) << " first=" << (o.app.empty() ? std::string("-") : std::to_string(o.app.front()))
+                << " last=" << (o.app.empty() ? std::string("-") : std::to_string(o.app.back()));
+    }
+    if (!bad.empty()) std::cout << " ORACLE-MISMATCH " << bad;
+    std::cout << "\n";
+  }
+  return 0;
+}
+
 } // namespace
 
 int main(int argc, char** argv)
@@ -420,6 +715,10 @@ int main(int argc, char** argv)
     return streamSegment(in);
   if (stream == "count")
     return streamCount(in);
+  if (stream == "print")
+    return streamPrint(in);
+  if (stream == "store")
+    return streamStore(in);
   std::cerr << "unknown stream " << stream << "\n";
   return 2;
 }
